@@ -380,7 +380,9 @@ class Server:
 
                 if isinstance(y, RemoteException):
                     y = y.exc
-                if not fut.cancelled():
+                if fut.set_running_or_notify_cancel():
+                    # From here on the caller can no longer cancel `fut`,
+                    # hence setting its outcome can not fail.
                     if isinstance(y, BaseException):
                         fut.set_exception(y)
                     else:
